@@ -150,6 +150,7 @@ def check(seed, n):
             evals += 1
             seen.add((text, big))
             case = {"text": text, "big_stack": big}
+            proto.sample("asmrun", {"text": text[:400], "big_stack": big})
             if problem:
                 v = {"property": "C06", "stream": "asmrun", "sig": "asm-vs-run:" + problem.split(":")[0], "case": case,
                      "what": "assembled program and interpreted source end differently: " + problem}
